@@ -8,7 +8,8 @@
    spec_runs / spec_checked / spec_token_ok / spec_origin_ok   the declarative statement of the property. *)
 From Coq Require Import List NArith Bool.
 Import ListNotations.
-Require Import Verif.Lib.Wire Verif.Lib.Text Verif.Lib.Utf8 Verif.Gen.Facts_C12 Verif.Model.C12 Verif.Proofs.C12 Verif.Proofs.C12_ex.
+Require Import Verif.Lib.Wire Verif.Lib.Text Verif.Lib.Utf8 Verif.Gen.Facts_C12 Verif.Model.C12 Verif.Proofs.C12
+  Verif.Proofs.C12_url Verif.Proofs.C12_seq Verif.Proofs.C12_ex.
 Open Scope N_scope.
 
 (* ---- the gate: the protected body runs iff token and origin conditions hold *)
@@ -215,3 +216,134 @@ Theorem C12_query_string_never_read : forall pr c r v,
   view_outcome_p pr c (with_query_string r v) = view_outcome_p pr c r.
 Proof. exact query_string_never_read. Qed.
 Print Assumptions C12_query_string_never_read.
+
+(* ================================================================== the urllib.parse.urlsplit fragment *)
+(* scheme "://" authority [path/query/fragment]: lower-cased scheme, authority unchanged *)
+Theorem C12_urlparse_scheme_authority : forall v6 c0 s n rest,
+  is_ascii_alpha c0 = true -> forallb (fun c => memN c url_scheme_chars) (c0 :: s) = true ->
+  forallb netloc_char n = true ->
+  (rest = [] \/ exists d r, rest = d :: r /\ memN d netloc_delims = true) ->
+  urlparse_m v6 ((c0 :: s) ++ [58; 47; 47] ++ n ++ rest) = PUrl (lower (c0 :: s)) n.
+Proof. exact urlparse_scheme_authority. Qed.
+Print Assumptions C12_urlparse_scheme_authority.
+
+Theorem C12_urlparse_origin_host : forall v6 c0 s h,
+  is_ascii_alpha c0 = true -> forallb (fun c => memN c url_scheme_chars) (c0 :: s) = true ->
+  forallb host_char h = true ->
+  urlparse_m v6 ((c0 :: s) ++ [58; 47; 47] ++ h) = PUrl (lower (c0 :: s)) h.
+Proof. exact urlparse_origin_host. Qed.
+Print Assumptions C12_urlparse_origin_host.
+
+Theorem C12_urlparse_origin_host_port : forall v6 c0 s h p,
+  is_ascii_alpha c0 = true -> forallb (fun c => memN c url_scheme_chars) (c0 :: s) = true ->
+  forallb host_char h = true -> forallb digit p = true ->
+  urlparse_m v6 ((c0 :: s) ++ [58; 47; 47] ++ h ++ [58] ++ p) = PUrl (lower (c0 :: s)) (h ++ [58] ++ p).
+Proof. exact urlparse_origin_host_port. Qed.
+Print Assumptions C12_urlparse_origin_host_port.
+
+(* exactly which inputs raise ValueError in the model: a '//' authority whose brackets are
+   unbalanced, or balanced with a content urllib's ipaddress check (the oracle) rejects *)
+Theorem C12_urlparse_valueerror_iff : forall v6 u,
+  urlparse_m v6 u = PValueError <->
+  exists n, url_netloc u = Some n /\
+            (memN 91 n <> memN 93 n \/
+             (memN 91 n = true /\ memN 93 n = true /\ lookup_b (bracket_content n) v6 = Some false)).
+Proof. exact urlparse_valueerror_iff. Qed.
+Print Assumptions C12_urlparse_valueerror_iff.
+
+Theorem C12_urlparse_valueerror_needs_bracket : forall v6 u,
+  urlparse_m v6 u = PValueError -> In 91 u \/ In 93 u.
+Proof. exact valueerror_needs_bracket. Qed.
+Print Assumptions C12_urlparse_valueerror_needs_bracket.
+
+Theorem C12_urlparse_latin1_no_brackets_parses : forall v6 u,
+  memN 91 u = false -> memN 93 u = false -> forallb (fun c => c <? 256) u = true ->
+  exists sc n, urlparse_m v6 u = PUrl sc n.
+Proof. exact latin1_no_brackets_parses. Qed.
+Print Assumptions C12_urlparse_latin1_no_brackets_parses.
+
+Theorem C12_urlparse_netloc_chars_from_input : forall u n c, url_netloc u = Some n -> In c n -> In c u.
+Proof. exact netloc_chars_from_input. Qed.
+Print Assumptions C12_urlparse_netloc_chars_from_input.
+
+(* ================================================================== token lifecycle of the storage policies *)
+Theorem C12_expected_is_held_after_get : forall s r,
+  expected_token s r = or_empty (store_after_get s (r_stored r) (r_fresh r)).
+Proof. exact expected_is_held_after_get. Qed.
+Print Assumptions C12_expected_is_held_after_get.
+
+(* a token is minted exactly when none is held (None; for the session and cookie policies also '') *)
+Theorem C12_get_mints_iff_absent : forall s st fresh,
+  (token_absent s st = true -> store_after_get s st fresh = Some fresh) /\
+  (token_absent s st = false -> store_after_get s st fresh = st).
+Proof. exact get_mints_iff_absent. Qed.
+Print Assumptions C12_get_mints_iff_absent.
+
+Theorem C12_token_absent_spec : forall s st,
+  token_absent s st = true <-> st = None \/ (s <> Legacy /\ st = Some []).
+Proof. exact token_absent_spec. Qed.
+Print Assumptions C12_token_absent_spec.
+
+Theorem C12_minted_token_is_kept : forall s st fresh fresh',
+  fresh <> [] -> store_after_get s (store_after_get s st fresh) fresh' = store_after_get s st fresh.
+Proof. exact minted_token_is_kept. Qed.
+Print Assumptions C12_minted_token_is_kept.
+
+(* with no stored token an empty supplied token is never accepted (any repair parameters) ... *)
+Theorem C12_no_stored_token_empty_supplied_not_accepted : forall pr s token header r,
+  token_absent s (r_stored r) = true -> r_fresh r <> [] ->
+  supplied_token token header r = [] ->
+  check_csrf_token_p pr s token header r <> TPass.
+Proof. exact no_stored_token_empty_supplied_not_accepted. Qed.
+Print Assumptions C12_no_stored_token_empty_supplied_not_accepted.
+
+(* ... it is rejected (False / BadCSRFToken), and the protected body does not run *)
+Theorem C12_no_stored_token_empty_supplied_rejected : forall s token header r,
+  token_absent s (r_stored r) = true -> r_fresh r <> [] -> forallb valid_scalar (r_fresh r) = true ->
+  supplied_token token header r = [] ->
+  check_csrf_token_p (the_params s) s token header r = TFail.
+Proof. exact no_stored_token_empty_supplied_rejected. Qed.
+Print Assumptions C12_no_stored_token_empty_supplied_rejected.
+
+Theorem C12_no_stored_token_empty_token_body_does_not_run : forall pr c r,
+  checks_apply c r = true ->
+  token_absent (c_storage c) (r_stored r) = true -> r_fresh r <> [] ->
+  supplied_token (o_token (effective c)) (o_header (effective c)) r = [] ->
+  view_outcome_p pr c r <> Ran.
+Proof. exact no_stored_token_empty_token_body_does_not_run. Qed.
+Print Assumptions C12_no_stored_token_empty_token_body_does_not_run.
+
+(* ================================================================== sequences of requests through csrf_view *)
+(* In any interleaving of clients (settings-based trusted origins, session / cookie storage whose
+   get_csrf_token mints per-client state), the outcomes client k observes and the token it ends up
+   holding are those of its own requests alone. *)
+Theorem C12_view_history_independent : forall pr c k steps s,
+  outcomes_of k steps (fst (run_clients pr c s steps)) = fst (run_client pr c (st_get k s) (requests_of k steps)) /\
+  st_get k (snd (run_clients pr c s steps)) = snd (run_client pr c (st_get k s) (requests_of k steps)).
+Proof. exact view_history_independent. Qed.
+Print Assumptions C12_view_history_independent.
+
+(* every verdict is the single-request verdict on (current request, that client's held token) *)
+Theorem C12_run_client_outcomes : forall pr c rs st,
+  Forall2 (fun r out => exists held, out = view_outcome_p pr c (with_client_state held r))
+          rs (fst (run_client pr c st rs)).
+Proof. exact run_client_outcomes. Qed.
+Print Assumptions C12_run_client_outcomes.
+
+Theorem C12_client_step_outcome : forall pr c st r,
+  fst (client_step pr c st r) = view_outcome_p pr c (with_client_state st r).
+Proof. exact client_step_outcome. Qed.
+Print Assumptions C12_client_step_outcome.
+
+(* the held token only changes by minting, when none was held and the policy was consulted *)
+Theorem C12_client_step_state : forall pr c st r,
+  snd (client_step pr c st r) = st \/
+  (token_absent (c_storage c) st = true /\ snd (client_step pr c st r) = Some (r_fresh r) /\
+   token_stage_reached pr c (with_client_state st r) = true).
+Proof. exact client_step_state. Qed.
+Print Assumptions C12_client_step_state.
+
+Theorem C12_held_token_is_stable : forall pr c r st,
+  token_absent (c_storage c) st = false -> snd (client_step pr c st r) = st.
+Proof. exact held_token_is_stable. Qed.
+Print Assumptions C12_held_token_is_stable.
